@@ -143,6 +143,9 @@ for key,(what,needs) in sorted(DESC.items()):
     txt = open(log).read()
     m = re.search(r"RESULT .*baseline_ok=(\d) demo_with=(\w+) demo_without=(\w+)", txt)
     if not m: continue
+    if m.group(1) != "1" or m.group(2) != "fail" or m.group(3) != "pass":
+        print("rejected (not confirmed):", key, m.groups())
+        continue
     checks = re.findall(r"check (C\d+): exit=(\d+) violations=(\d+)", txt)
     clauses = sorted(set(re.findall(r"clause=([^ ]+(?: [^s][^ ]*)*?) sig=", txt)))
     dst = f"/verif/seeded/{key}"
